@@ -332,6 +332,29 @@ def labCastling (r : Rng) : Rng × Spec.SPos :=
         (r, putPiece b (Spec.sqOf f rk) (Spec.mkPc side (if q = 0 then 5 else if diag then 3 else 4)))
       else (r, b)
     else (r, b)
+  -- sometimes the other king leaves home for a square where castling gives check: on the file the rook lands on (d or f), or on
+  -- the castling side's own back rank beyond the vacated king square (the rook's check then runs through e1/e8)
+  let (r, chk) := r.below 3
+  let (r, b, rights) :=
+    if chk = 0 then
+      let cands : List Nat :=
+        if side = 0 then ((List.range 6).map (fun k => 3 + 8 * (k + 2))) ++ ((List.range 6).map (fun k => 5 + 8 * (k + 2))) ++
+                         (if rights &&& 1 = 0 then [6, 7] else []) ++ (if rights &&& 2 = 0 then [0, 1] else [])
+        else ((List.range 6).map (fun k => 3 + 8 * k)) ++ ((List.range 6).map (fun k => 5 + 8 * k)) ++
+             (if rights &&& 4 = 0 then [62, 63] else []) ++ (if rights &&& 8 = 0 then [56, 57] else [])
+      let (r, sq) := r.pick cands
+      if Spec.pcAt b sq = 0 then
+        -- the vacated home square of that king often gets a rook or queen of the side to move: a move e8-g8 / e8-c8 (e1-g1 / e1-c1)
+        -- by a piece that is not a king, made by a side that still has castling rights, must stay an ordinary move in every text form
+        let (r, guest) := r.pick [0, 4, 5, 4]
+        if side = 0 then
+          let b := (b.set 60 0).set sq 12
+          (r, if guest ≠ 0 ∧ sq ≠ 60 then b.set 60 (Spec.mkPc 0 guest) else b, rights &&& 3)
+        else
+          let b := (b.set 4 0).set sq 6
+          (r, if guest ≠ 0 ∧ sq ≠ 4 then b.set 4 (Spec.mkPc 1 guest) else b, rights &&& 12)
+      else (r, b, rights)
+    else (r, b, rights)
   let (r, b) := sprinkle r b (n + 1) [2, 3, 3, 4, 4, 5, 8, 9, 9, 10, 10, 11, 1, 7]
   -- sometimes the opponent has just made a double pawn push: castling (and every other move) must then clear the
   -- en-passant square and its key component
@@ -467,6 +490,15 @@ def labPromo (r : Rng) : Rng × Spec.SPos :=
   -- list) and enemy pieces that may capture either of them
   let (r, m) := r.below 7
   let (r, b) := sprinkle r b m [5, 4, 3, 2, 5, 4, 9, 10, 11, 8, 7, 11, 10]
+  -- often the black king and a white slider stand on opposite sides of a promoting pawn: the promotion (also an
+  -- under-promotion, also a capture) uncovers a check that the new piece itself does not give
+  let (r, disc) := r.below 2
+  let pawnSqs := (List.range 8).filter (fun f => Spec.pcAt b (48 + f) = 1)
+  let (r, b) :=
+    if disc = 0 ∧ !pawnSqs.isEmpty then
+      let (r, f) := r.pick pawnSqs
+      lineMotif r b (48 + f) 1 0
+    else (r, b)
   (r, { board := b, side := 0, castling := 0, ep := 64, halfmove := 1, fullmove := 40 })
 
 def labSparse (r : Rng) : Rng × Spec.SPos :=
